@@ -13,6 +13,16 @@ from common import f2h, h2f, close
 warnings.filterwarnings("ignore")
 np.seterr(all="ignore")
 
+
+# ------------------------------------------------------------------ translator (tie T): __calculate_corr
+def translate(ctx):
+    from translate import qcumulant
+    text, regions = qcumulant.render(common.read_src("flow/QCumulantFlow.py"))
+    common.write_if_changed(common.LEAN / "SparkxVerif/Gen/QCumulant.lean", text)
+    golden = common.LEAN / "golden/Gen/QCumulant.lean"
+    ctx.cov["gen_equals_golden"] = golden.exists() and golden.read_text() == text
+    return regions
+
 IMAG = ["zero", "negative", "nan"]
 SELECTORS = ["pT", "rapidity", "pseudorapidity"]
 
@@ -254,6 +264,8 @@ def correspond(ctx):
             phis = gen_phis(rng, k)
             lines.append(f"corr\t{k}\t{enc_events(phis, n)}")
             meta.append(("corr", n, k, None, phis))
+            lines.append(f"gcorr\t{k}\t{enc_events(phis, n)}")
+            meta.append(("corr", n, k, "gen", phis))
         elif r < 0.7:
             k = rng.choice([2, 4, 6])
             n = rng.randint(1, 4)
